@@ -166,7 +166,10 @@ func VH_bech32_bad_char() {
 //verif:opts reach=end affine=1
 func VH_bech32_checksum_roundtrip() {
 	hrp := []string{"bc", "tb", "bcrt"}[vNondetLen("hrp", 2)]
-	lens := []int{0, 1, 8, 33, 53, 71}
+	lens := []int{0, 1, 8, 33}
+	if vTier() == 1 {
+		lens = []int{0, 1, 2, 8, 33, 53, 71}
+	}
 	n := lens[vNondetLen("n", len(lens)-1)]
 	data := vData5("data", n)
 	ver := Version0
